@@ -59,6 +59,29 @@ func (c *ctx) head(kw string, h int, atoms []string, op, tail string) []string {
 	if h <= 1 {
 		return []string{kw + " (" + strings.Join(atoms[:1], "") + ")" + tail}
 	}
+	switch c.rnd.Intn(4) {
+	case 0:
+		// the opening parenthesis ends the first line, the first operand starts on the second (still h lines from
+		// the "(" to the ")")
+		out := []string{kw + " ("}
+		for i := 1; i < h; i++ {
+			l := "        " + atoms[i]
+			if i < h-1 {
+				l += " " + op
+			} else {
+				l += ")" + tail
+			}
+			out = append(out, l)
+		}
+		return out
+	case 1:
+		// the closing parenthesis has the last line to itself
+		out := []string{kw + " (" + atoms[0]}
+		for i := 1; i < h-1; i++ {
+			out = append(out, "        "+op+" "+atoms[i])
+		}
+		return append(out, ")"+tail)
+	}
 	out := []string{kw + " (" + atoms[0]}
 	for i := 1; i < h; i++ {
 		l := "        " + op + " " + atoms[i]
